@@ -344,3 +344,114 @@ Example c08_batched_nonvacuous :
   snd (bstep (fst (remove_run 1 true 5 [[5; 6; 7; 8; 9]; [10; 11]; []]%N (bruns init c08_cut_demo))) (P (Snapshot [7]%N))) =
     OSnap [] (0, 0, 3, 0, 0)%Z [None] [].
 Proof. vm_compute. repeat split; reflexivity. Qed.
+
+(** * The expiry, prune and placement selections, regenerated from the SQL
+
+   q_deleteExpiredContractSectors, q_deleteExpiredV2ContractSectors, q_deleteTempSectors,
+   q_updatePruneableVolumeSectors and q_emptyLocation (gen/StorageQueries.v) are produced on every
+   run by tools/sqlgen (spec tools/sqlgen/c08.json) from the SQL text and the bound Go arguments of
+   the functions of those names in the repository's current persist/sqlite/{contracts,sectors,
+   volumes}.go: SQLite's affinity rules (column types of init.sql, what database/sql binds for the
+   Go status constants), three-valued logic (SqlSem.v), INNER JOIN on a primary key as a field
+   of the joining row, LEFT JOIN ... IS NULL over whole tables (SqlJoin.v); the LIMITs are batch
+   sizes of loops that run until no row is hit (c08_*_is_its_batches above) resp. the pick of one
+   empty slot.  SqlRows.v holds the row records; [sr1_of]/[sr2_of]/[ts_of]/[vs_of] and
+   [tab_sr1]/[tab_sr2]/[tab_ts]/[tab_vs] (GenEquiv.v) are the rows and tables of a model state
+   ([la]: last access per sector, [w]: sector_writes per slot — columns the model does not keep). *)
+From HostdStorage Require Import SqlSem SqlRows SqlJoin StorageQueries GenEquiv.
+
+(* "referenced by a contract that is neither rejected nor past its proof window": the two
+   expiry statements delete exactly the roots of contracts that are rejected or past their
+   window (v2: expiration height) *)
+Theorem c08_gen_expiry_selects_exactly_rejected_or_past_window : forall (c : contract) (k r h : N),
+  (cv2 c = false ->
+   (q_deleteExpiredContractSectors (sr1_of c k r) h = true <-> crej c = true \/ (cend c < h)%N)) /\
+  (cv2 c = true ->
+   (q_deleteExpiredV2ContractSectors (sr2_of c k r) h = true <-> crej c = true \/ (cend c < h)%N)).
+Proof. exact gen_expiry_iff. Qed.
+Print Assumptions c08_gen_expiry_selects_exactly_rejected_or_past_window.
+
+(* ... for any row of the two tables whose contract row agrees with the model's contract (any of
+   the five / six statuses, rejected iff the model's flag), and so the generated selection is the
+   [exp_sel] of the model's expire_cons / drop_root / expire_batch *)
+Theorem c08_gen_expiry_any_row : forall (c : contract) (h : N),
+  (forall (x : x1row) (r : sr1row), cv2 c = false -> rep_x1 c x -> sr1_contract r = Some x ->
+     q_deleteExpiredContractSectors r h = exp_sel false h c) /\
+  (forall (x : x2row) (r : sr2row), cv2 c = true -> rep_x2 c x -> sr2_contract r = Some x ->
+     q_deleteExpiredV2ContractSectors r h = exp_sel true h c).
+Proof. exact (fun c h => conj (fun x r => q_expire_v1_model c x r h) (fun x r => q_expire_v2_model c x r h)). Qed.
+Print Assumptions c08_gen_expiry_any_row.
+
+Theorem c08_gen_expiry_is_model_selection : forall (v2 : bool) (h : N) (c : contract),
+  gen_exp_sel v2 h c = exp_sel v2 h c.
+Proof. exact gen_exp_sel_eq. Qed.
+Print Assumptions c08_gen_expiry_is_model_selection.
+
+(* "temp storage expiring after h": ExpireTempSectors deletes exactly the entries with
+   expiration <= h, i.e. keeps what the model's expire_temp keeps *)
+Theorem c08_gen_temp_expiry_selects_exactly_not_live : forall (h : N),
+  (forall (t : N * N) (r : tsrow), ts_sector_id r = fst t -> ts_expiration_height r = snd t ->
+     q_deleteTempSectors r h = negb (temp_live h t)) /\
+  (forall s : state,
+     filter (fun t => negb (q_deleteTempSectors (ts_of t) h)) (temps s) = filter (temp_live h) (temps s)).
+Proof. exact (fun h => conj (fun t r => q_temp_model t r h) (q_temp_canonical h)). Qed.
+Print Assumptions c08_gen_temp_expiry_selects_exactly_not_live.
+
+(* "followed by a prune": PruneSectors clears exactly the slots whose sector was last accessed
+   before the cutoff and is referenced by no contract of either version and by no temp entry *)
+Theorem c08_gen_prune_selects_exactly_unreferenced : forall la w (s : state) (vl : vol) (i : N) (x : option N) (cutoff : Z),
+  q_updatePruneableVolumeSectors (vs_of la w vl (i, x)) (tab_sr1 s) (tab_sr2 s) (tab_ts s) cutoff = true <->
+  exists r, x = Some r /\ (Z.of_N (la r) < cutoff)%Z /\ refd s r = false.
+Proof. exact gen_prune_iff. Qed.
+Print Assumptions c08_gen_prune_selects_exactly_unreferenced.
+
+(* ... for any contents of the three reference tables that hold the references of the state *)
+Theorem c08_gen_prune_any_tables : forall (s : state) T1 T2 T3 (row : vsrow) (e : ssrow) (cutoff : Z),
+  tables_represent s T1 T2 T3 -> vs_sector row = Some e ->
+  q_updatePruneableVolumeSectors row T1 T2 T3 cutoff =
+  (Z.of_N (ss_last_access_timestamp e) <? cutoff)%Z && negb (refd s (ss_id e)).
+Proof. exact q_prune_model. Qed.
+Print Assumptions c08_gen_prune_any_tables.
+
+Theorem c08_gen_tables_of_state_represent : forall s : state,
+  tables_represent s (tab_sr1 s) (tab_sr2 s) (tab_ts s).
+Proof. exact canonical_tables_represent. Qed.
+Print Assumptions c08_gen_tables_of_state_represent.
+
+(* "puts new sectors only in available, writable volumes": the location StoreSector is handed
+   is a row the statement selects, and it selects exactly the empty slots of available volumes
+   that are not read-only ... *)
+Theorem c08_gen_placement_only_available_writable_free : forall la w (vl : vol) (i : N) (x : option N),
+  q_emptyLocation (vs_of la w vl (i, x)) = true <-> vavail vl = true /\ vro vl = false /\ x = None.
+Proof. exact gen_placement_iff. Qed.
+Print Assumptions c08_gen_placement_only_available_writable_free.
+
+(* ... which is the model's validation of the implementation's choice ([valid_free], used by
+   [reserve]) ... *)
+Theorem c08_gen_placement_is_valid_free : forall (s : state) (v i : N) (vl : vol) (x : option N) (sv : svrow) (r : vsrow),
+  vget v (vols s) = Some vl -> sget i (vslots vl) = Some x ->
+  rep_sv vl sv -> vs_volume r = Some sv -> vs_sector_id r = x ->
+  q_emptyLocation r = valid_free s v i.
+Proof. exact q_empty_valid_free. Qed.
+Print Assumptions c08_gen_placement_is_valid_free.
+
+(* ... and "no row" (ErrNotEnoughStorage) is the model's [has_free] = false *)
+Theorem c08_gen_no_row_iff_no_free_slot : forall la w (s : state),
+  existsb q_emptyLocation (tab_vs la w s) = has_free s.
+Proof. exact q_empty_has_free. Qed.
+Print Assumptions c08_gen_no_row_iff_no_free_slot.
+
+(* non-vacuity of the generated selections on the demo state above: the rejected v2 contract's
+   root and the past-window test are selected, the live one is not; sector 9 (unreferenced once
+   its temp entry is gone) is pruned, sector 8 is not; only the empty slots are placement
+   candidates *)
+Example c08_gen_nonvacuous :
+  let s := runs init c08_demo in
+  map (fun c => (cid c, gen_exp_sel true 10 c, gen_exp_sel true 21 c)) (cons s)
+    = [(1%N, true, true); (2%N, false, true)] /\
+  map (fun t => q_deleteTempSectors (ts_of t) 10) (temps s) = [true] /\
+  map (fun r => q_updatePruneableVolumeSectors (vs_of (fun _ => 5%N) (fun _ _ => 0%N) {| vid := 1; vro := false; vavail := true; vtotal := 2; vused := 2; vslots := [] |} (0%N, Some r))
+                  (tab_sr1 (reclaim 10 s)) (tab_sr2 (reclaim 10 s)) (tab_ts (reclaim 10 s)) 6%Z) [7; 8; 9]%N
+    = [true; false; true] /\
+  map q_emptyLocation (tab_vs (fun _ => 5%N) (fun _ _ => 0%N) s) = [false; false; false; true].
+Proof. vm_compute. repeat split; reflexivity. Qed.
